@@ -428,7 +428,8 @@ ERR_NAMES = {"MaxNFracDigitsExceeded": "maxNFracDigitsExceeded", "InternalOverfl
              "InfiniteValue": "infiniteValue", "NotANumber": "notANumber", "DivisionByZero": "divisionByZero"}
 # methods of `Decimal` that kernels call; they are modelled by hand: name -> (result type, Lean head, monadic?)
 DEC_METHODS = {"eq_zero": ("bool", "Model.eqZero", False), "eq_one": ("bool", "Model.eqOne", True),
-               "is_negative": ("bool", "Model.isNegative", False), "is_positive": ("bool", "Model.isPositive", False)}
+               "is_negative": ("bool", "Model.isNegative", False), "is_positive": ("bool", "Model.isPositive", False),
+               "fract": ("Decimal", "Model.fract", True)}
 STRUCT_FIELDS = {"coeff": ("i128", "coeff"), "n_frac_digits": ("u8", "nfrac")}
 MODE_NAMES = {"Round05Up": ".r05up", "RoundCeiling": ".ceil", "RoundDown": ".down", "RoundFloor": ".floor",
               "RoundHalfDown": ".hdown", "RoundHalfEven": ".heven", "RoundHalfUp": ".hup", "RoundUp": ".up"}
@@ -1319,6 +1320,10 @@ class Emit:
                 return "none"
             if n == "Some":
                 return f"some {self.pat_lean(p[2], t[1])}"
+            if n == "Ok":
+                return f".ok {self.pat_lean(p[2], t[1])}"
+            if n == "Err":
+                return ".error _" if p[2] is None or p[2][0] in ("pwild", "pvar") else f".error {self.pat_lean(p[2], t[2])}"
             if n in MODE_NAMES:
                 return MODE_NAMES[n]
             if n in ("Less", "Equal", "Greater"):
@@ -1331,6 +1336,8 @@ class Emit:
         elif p[0] == "ptuple":
             for x, tt in zip(p[1], t[1]):
                 self.bind_pat(x, tt)
+        elif p[0] == "pctor" and p[2] is not None and p[1][-1] == "Err":
+            pass
         elif p[0] == "pctor" and p[2] is not None:
             self.bind_pat(p[2], t[1])
 
@@ -1355,7 +1362,7 @@ class Emit:
 GROUP_IMPORTS = {"KPow": ["Fpdec.Gen.Consts"], "KDivRounded": ["Fpdec.Gen.KRound", "Fpdec.Gen.KPow", "Fpdec.Model.Core"],
                  "KDecDiv": ["Fpdec.Gen.KDivRounded"], "KDecMul": ["Fpdec.Gen.KDivRounded", "Fpdec.Model.Decimal"], "KNorm": [], "KDecUnops": ["Fpdec.Gen.KUnops", "Fpdec.Gen.KPow", "Fpdec.Model.Decimal"], "KDecOps": ["Fpdec.Gen.KDecDiv", "Fpdec.Gen.KDecMul", "Fpdec.Gen.KNorm", "Fpdec.Gen.Consts", "Fpdec.Model.Decimal"],
                  "KDecRound": ["Fpdec.Gen.KDivRounded", "Fpdec.Model.Decimal"],
-                 "KFloat": ["Fpdec.Gen.KNorm", "Fpdec.Gen.Consts", "Fpdec.Model.Core", "Fpdec.Model.Decimal"], "KRem": ["Fpdec.Gen.KPow"],
+                 "KFloat": ["Fpdec.Gen.KNorm", "Fpdec.Gen.Consts", "Fpdec.Model.Core", "Fpdec.Model.Decimal"], "KRem": ["Fpdec.Gen.KPow"], "KDecRem": ["Fpdec.Gen.KRem", "Fpdec.Model.Decimal"],
                  "KWideDiv": ["Fpdec.Gen.KWide", "Fpdec.Gen.KPow", "Fpdec.Gen.Consts", "Fpdec.Model.Core"]}
 LOOP_FUEL.update({("normalize", 1): 256, ("approx_rational", 1): 32, ("rem", 1): 256,
                   ("u256_idiv_u128_special_k", 1): 340282366920938463463374607431768211457,
@@ -1392,6 +1399,8 @@ KERNELS = [
     ("KDecRound", "src/round.rs", "checked_round", "Decimal", {"as": "decimal_checked_round"}),
     ("KFloat", "src/from_float.rs", "approx_rational", None),
     ("KRem", "src/binops/rem.rs", "rem", None),
+    ("KDecRem", "src/binops/rem.rs", "rem", "Decimal", {"occ": 1, "as": "decimal_rem"}),
+    ("KDecRem", "src/binops/checked_rem.rs", "checked_rem", "Decimal", {"as": "decimal_checked_rem", "ret": ("Option", "Decimal")}),
     ("KFloat", "src/from_float.rs", "f64_decode", None),
     ("KFloat", "src/from_float.rs", "f32_decode", None),
     ("KFloat", "src/from_float.rs", "try_from", "Decimal", {"occ": 0, "as": "try_from_f32"}),
